@@ -60,6 +60,13 @@ type Spec struct {
 	Cert    int      `json:"cert"` // id of the serving key pair, -1 = none
 	CA      int      `json:"ca"`   // id of the client CA, -1 = none
 	Bad     bool     `json:"bad"`  // secure-serving data / feature-gate annotation that does not parse
+	// Corpus only (objects the stateless validation refuses, so they are never generated): an object without
+	// servers and with a client key pair that does not parse can be CREATED (no transport is built), after which
+	// every Sync that has to add an endpoint fails in syncEndpoints. The model is told through failendpoints
+	// (= Sync fails on this object) — regression input for /repo ddabea4.
+	NoServers     bool `json:"noservers,omitempty"`
+	BrokenClient  bool `json:"brokenclient,omitempty"`
+	FailEndpoints bool `json:"failendpoints,omitempty"`
 }
 
 type Step struct {
@@ -149,6 +156,15 @@ func mkObj(name string, sp *Spec, rv int) *proxyv1alpha1.UpstreamCluster {
 	}
 	if m, ok := clientCAs[sp.CA]; ok {
 		o.Spec.SecureServing.ClientCAData = m.certPEM
+	}
+	if sp.NoServers {
+		o.Spec.Servers = nil
+	}
+	if sp.BrokenClient {
+		o.Spec.ClientConfig.CertData, o.Spec.ClientConfig.KeyData = []byte("not a pem"), []byte("not a pem")
+	}
+	if sp.FailEndpoints {
+		o.Spec.Servers = []proxyv1alpha1.UpstreamClusterServer{{Endpoint: "https://127.0.0.1:2", Disabled: &trueV}}
 	}
 	if sp.Bad {
 		// alternate between the two things Sync can fail on; both fail before anything is stored
@@ -536,7 +552,7 @@ func runCase(c *rig.Ctx, cs Case) (v verdict) {
 			}
 		}
 		st := cs.Steps[i]
-		if cs.Steps[i].K == "set" && mo.Admit != ex.Obs[i].Admit {
+		if sp := st.Spec; st.K == "set" && !(sp.NoServers || sp.BrokenClient || sp.FailEndpoints) && mo.Admit != ex.Obs[i].Admit {
 			v.Kind, v.Class = "diff", "c10.plugin-admit"
 			v.What = fmt.Sprintf("step %d: admission plug-in admits object %q = %v, model says %v", i, rig.UnHex(st.Name), ex.Obs[i].Admit, mo.Admit)
 			return
@@ -652,6 +668,15 @@ func readable(cs Case) interface{} {
 				al = append(al, fmt.Sprintf("%q", rig.UnHex(a)))
 			}
 			t += fmt.Sprintf(" serverNames=[%s] cert=%d ca=%d bad=%v", strings.Join(al, ","), s.Spec.Cert, s.Spec.CA, s.Spec.Bad)
+			if s.Spec.NoServers {
+				t += " noservers"
+			}
+			if s.Spec.BrokenClient {
+				t += " brokenclient"
+			}
+			if s.Spec.FailEndpoints {
+				t += " failendpoints"
+			}
 		}
 		txt = append(txt, t)
 	}
@@ -786,7 +811,7 @@ func main() {
 			}
 			one(c, cs, "corpus")
 		}
-		n := c.Budget(1000, 12000)
+		n := c.Budget(800, 12000)
 		start := time.Now()
 		for i := 0; i < n && c.NFailures() < 3; i++ {
 			kind := "mixed"
